@@ -4,6 +4,8 @@
 EXTENDS Bricks, Json, IOUtils, SequencesExt
 Thorough == IOEnv.TIER = "thorough"
 Cfgs == SetToSeq(Configs(Thorough))
+Twins == SetToSeq(TwinSample(Thorough))
+TwinKey(c) == CfgKey(c) \o "|numerical-jacobian"
 BehaviourRecord(c) ==
   [key |-> CfgKey(c), fam |-> IF c.pot = "Probe" THEN "hand" ELSE "brick", law |-> IF c.flow = "none" THEN "elastic" ELSE LawOfFlow(c.flow),
    dsl |-> "Implicit", algo |-> "NewtonRaphson", jac |-> IF c.pot = "Probe" THEN "wrong" ELSE "analytic", eps |-> 14,
@@ -11,14 +13,16 @@ BehaviourRecord(c) ==
    flowp |-> IF c.flow = "none" THEN P(<<>>, "") ELSE FlowParams(c.flow), critp |-> CritParams(c.crit), ihrp |-> IhrParams(c.ihr),
    khrp |-> KhrParams(c.khr), potp |-> IF c.pot = "Probe" THEN P(<<>>, "") ELSE PotParams(c.pot), nucp |-> NucParams(c.nuc)] @@ c
 CaseRecord(c, k, th) == [blockclass |-> BlockClass, theta |-> th, f0 |-> InitialPorosity, e0 |-> InitialElasticStrain, bkey |-> CfgKey(c), hyp |-> c.hyp, path |-> [j \in 1..Len(Paths[k]) |-> [de |-> Paths[k][j][1], dt |-> Paths[k][j][2]]],
-                     pathid |-> k, njeps |-> JacobianPerturbations, p0 |-> InitialEquivalentStrain, cfg |-> c]
+                     pathid |-> k, twin |-> IF c \in TwinSample(Thorough) THEN TwinKey(c) ELSE "", njeps |-> JacobianPerturbations, p0 |-> InitialEquivalentStrain, cfg |-> c]
 Cs == LET s == SetToSeq({<<i, k, th>> : i \in 1..Len(Cfgs), k \in 1..Len(Paths), th \in Thetas}) IN
       [n \in 1..Len(s) |-> [id |-> n] @@ CaseRecord(Cfgs[s[n][1]], s[n][2], s[n][3])]
 Tables == [elasticities |-> Elasticities, sden |-> SDen]
-ASSUME ndJsonSerialize(IOEnv.OUTB, [i \in 1..Len(Cfgs) |-> BehaviourRecord(Cfgs[i])] \o <<Tables>>)
+TwinRecord(c) == [key |-> TwinKey(c), algo |-> "NewtonRaphson_NumericalJacobian", jac |-> "none"] @@ BehaviourRecord(c)
+ASSUME ndJsonSerialize(IOEnv.OUTB, [i \in 1..Len(Cfgs) |-> BehaviourRecord(Cfgs[i])] \o [i \in 1..Len(Twins) |-> TwinRecord(Twins[i])] \o <<Tables>>)
+ASSUME Len(Twins) >= 2
 ASSUME ndJsonSerialize(IOEnv.OUT, Cs)
 \* the coverage claims of Bricks.tla
 ASSUME EachChoiceCovered(QuickRows) /\ \A r \in QuickRows : Valid4(r[1], r[2], r[3], r[4])
 ASSUME Thorough => PairwiseCovered(PairwiseRows)
-ASSUME PrintT(<<"GEN", Len(Cfgs), Len(Cs), Cardinality(PairwiseRows)>>)
+ASSUME PrintT(<<"GEN", Len(Cfgs), Len(Twins), Len(Cs), Cardinality(PairwiseRows)>>)
 =============================================================================
